@@ -150,9 +150,14 @@ func (t *wScreen) drawCell(x, y int) int {
 		b := make([]rune, 0, 1 + len(combc))
 		b = append(b, mainc)
 		for _, r := range combc {
-			if r < ' ' || (r >= 0x7f && r < 0xa0) {
+			if r < ' ' || (r >= 0x7f && r < 0xa0) || r == 0x2028 || r == 0x2029 {
 				// a control character is no combining mark (a line
-				// feed here would add a row to the page)
+				// feed here would add a row to the page, and so would
+				// the line and paragraph separators)
+				continue
+			}
+			if !utf8.ValidRune(r) || (r >= 0xfdd0 && r <= 0xfdef) || r&0xfffe == 0xfffe {
+				// no character at all: it would become a visible U+FFFD
 				continue
 			}
 			b = append(b, r)
